@@ -225,4 +225,127 @@ theorem C11_gone_relationRemove (es : List RNode) (q : Nat) (r : RNode) (hr : es
     simp only [List.length_nil]
     omega
 
+/-! ### the two missing frames -/
+
+theorem kids_split (f : Field) (p : Nat) (e : RNode) (he : f.kids[p]? = some e) :
+    f.kids = f.kids.take p ++ e :: f.kids.drop (p + 1) ∧ (f.kids.take p).length = p := by
+  have hp : p < f.kids.length := by
+    rcases Nat.lt_or_ge p f.kids.length with h' | h'
+    · exact h'
+    · rw [List.getElem?_eq_none_iff.2 h'] at he; cases he
+  exact ⟨textList_split f.kids p e he, by simp [Nat.min_eq_left (Nat.le_of_lt hp)]⟩
+
+theorem take_mid {α} (pre : List α) (x : α) (post : List α) (p : Nat) (hl : pre.length = p) :
+    (pre ++ [x] ++ post).take p = pre ∧ (pre ++ [x] ++ post).drop (p + 1) = post := by
+  subst hl; simp
+
+/-- `Relation::remove()` (= `Entry::remove_relation(j)`) on the relation `r` at position `q` of the entry
+    `e` at root position `p`. Inside the entry the children are `A ++ wsA ++ r :: wsB ++ B` and become
+    `A ++ B`: the relation goes with a run of blanks holding at most one `|`, which stands before it
+    when another relation precedes (`wsB = []`) and after it otherwise (`wsA = []`). Then
+    * a relation is left: every other root child is where it was, the entry node has the children `A ++ B`;
+    * none is left: the entry goes too, by `Entry::remove`: the root children become `A' ++ B'` where
+      `take p = A' ++ wA`, `drop (p + 1) = wB ++ B'` and `wA ++ wB` are blanks with at most one `,`. -/
+theorem C11_frame_removeRelation (f f' : Field) (p q : Nat) (e r : RNode)
+    (he : f.kids[p]? = some e) (hr : e.children[q]? = some r) (h : f.removeRelationAt p q = .ok f') :
+    ∃ A wsA wsB B, e.children = A ++ wsA ++ r :: wsB ++ B ∧ A.length + wsA.length = q
+      ∧ SepRun .PIPE (wsA ++ wsB)
+      ∧ ((e.children.take q).any (isNodeOf .RELATION) = true → wsB = [])
+      ∧ ((e.children.take q).any (isNodeOf .RELATION) = false → wsA = [])
+      ∧ (((A ++ B).any (isNodeOf .RELATION) = true
+            ∧ f'.kids = f.kids.take p ++ .node e.kind (A ++ B) :: f.kids.drop (p + 1))
+        ∨ ((A ++ B).any (isNodeOf .RELATION) = false
+            ∧ ∃ A' wA wB B', f.kids.take p = A' ++ wA ∧ f.kids.drop (p + 1) = wB ++ B'
+                ∧ SepRun .COMMA (wA ++ wB) ∧ f'.kids = A' ++ B')) := by
+  obtain ⟨hk, hl⟩ := kids_split f p e he
+  have hek : f.entryKids p = e.children := by simp [Field.entryKids, he]
+  unfold Field.removeRelationAt at h
+  rw [hek] at h
+  cases hc : relationRemoveIn e.children q with
+  | panic s => rw [hc] at h; simp [Outcome.bind] at h
+  | ok c =>
+    rw [hc] at h
+    simp only [Outcome.bind] at h
+    obtain ⟨A, wsA, wsB, B, rfl, hA, hB, hsep, _, h1, h2⟩ := C11_gone_relationRemove e.children q r hr c hc
+    have hk1 := entryEdit_kids f p ⟨A ++ B, Remap.cut A.length (A.length + wsA.length + 1 + wsB.length)⟩
+      (fun _ => none) _ e _ hk hl
+    have hek1 : (f.entryEdit p ⟨A ++ B, Remap.cut A.length (A.length + wsA.length + 1 + wsB.length)⟩).entryKids p
+        = A ++ B := by
+      have := entryKids_split (f.entryEdit p ⟨A ++ B, Remap.cut A.length (A.length + wsA.length + 1 + wsB.length)⟩)
+        (f.kids.take p) (.node e.kind (A ++ B)) (f.kids.drop (p + 1)) (by rw [hk1]; simp)
+      rw [hl] at this
+      exact this
+    have hq : q < e.children.length := by
+      rcases Nat.lt_or_ge q e.children.length with h' | h'
+      · exact h'
+      · rw [List.getElem?_eq_none_iff.2 h'] at hr; cases hr
+    have hsplit := textList_split e.children q r hr
+    refine ⟨A, wsA, wsB, B, by rw [hsplit, hA, hB]; simp, ?_, hsep, h1, h2, ?_⟩
+    · have := congrArg List.length hA
+      simp only [List.length_take, List.length_append] at this
+      omega
+    · rw [hek1] at h
+      cases hb : (A ++ B).any (isNodeOf .RELATION)
+      · right
+        simp only [hb, Bool.not_false, if_true] at h
+        refine ⟨rfl, ?_⟩
+        unfold Field.removeEntryAt at h
+        cases hc' : entryRemove (f.entryEdit p ⟨A ++ B, Remap.cut A.length (A.length + wsA.length + 1 + wsB.length)⟩).kids p with
+        | panic s => rw [hc'] at h; simp [Outcome.map] at h
+        | ok c' =>
+          rw [hc'] at h
+          simp only [Outcome.map, Outcome.ok.injEq] at h
+          obtain ⟨A', wA, wB, B', rfl, hA', hB', hsep'⟩ := C11_gone_entryRemove _ p c' hc'
+          rw [hk1] at hA' hB'
+          refine ⟨A', wA, wB, B', ?_, ?_, hsep', by rw [← h]; rfl⟩
+          · rw [← hA', (take_mid _ _ _ p hl).1]
+          · rw [← hB', (take_mid _ _ _ p hl).2]
+      · left
+        simp only [hb, Bool.not_true, Bool.false_eq_true, if_false, Outcome.ok.injEq] at h
+        refine ⟨rfl, ?_⟩
+        rw [← h, hk1]; simp
+
+/-- `Entry::replace(j, rel)` on the entry `e` at root position `p`: every other root child is where it
+    was; inside the entry `A ++ old :: B` becomes `A ++ new' :: B`, where `new'` has the kind of the
+    operand and as children the leading blanks of `old`, a contiguous middle part of the operand's
+    children (all of them when the operand has no edge blanks) and the trailing blanks of `old` -/
+theorem C11_frame_entryReplace (f f' : Field) (p j : Nat) (rel e : RNode) (he : f.kids[p]? = some e)
+    (h : f.entryReplaceAt p j rel = .ok f') :
+    ∃ q old new' mid, nthNode .RELATION e.children j = some q ∧ e.children[q]? = some old
+      ∧ f'.kids = f.kids.take p
+          ++ .node e.kind (e.children.take q ++ new' :: e.children.drop (q + 1)) :: f.kids.drop (p + 1)
+      ∧ new' = .node rel.kind (old.children.takeWhile isWsElem ++ mid
+          ++ (old.children.reverse.takeWhile isWsElem).reverse)
+      ∧ mid <:+: rel.children ∧ (trimmed rel → mid = rel.children) := by
+  obtain ⟨hk, hl⟩ := kids_split f p e he
+  have hek : f.entryKids p = e.children := by simp [Field.entryKids, he]
+  unfold Field.entryReplaceAt at h
+  rw [hek] at h
+  cases hq : nthNode .RELATION e.children j with
+  | none => rw [hq] at h; simp at h
+  | some q =>
+    rw [hq] at h
+    obtain ⟨pre', r, post', hk', hl', hr', hcnt'⟩ := nthPos_some hq
+    subst hl'
+    simp only [entryReplaceIn, hk', getElem?_split, Outcome.map, Outcome.ok.injEq] at h
+    have hf1 := entryEdit_kids f p
+      ⟨List.take pre'.length (pre' ++ r :: post') ++ List.drop (pre'.length + 1) (pre' ++ r :: post'),
+        Remap.cut pre'.length (pre'.length + 1)⟩
+      (fun x => if x = pre'.length then some (graftWs r rel).2.text else none) _ e _ hk hl
+    have hk2 : f'.kids = f.kids.take p ++ [.node e.kind (replaceAt (pre' ++ r :: post') pre'.length
+        [(graftWs r rel).1])] ++ f.kids.drop (p + 1) := by
+      rw [← h]
+      rw [entryEdit_kids _ p _ _ (f.kids.take p) (Node.node e.kind (List.take pre'.length (pre' ++ r :: post')
+        ++ List.drop (pre'.length + 1) (pre' ++ r :: post'))) (f.kids.drop (p + 1)) (by rw [hf1]; simp) hl]
+      rfl
+    refine ⟨pre'.length, r, (graftWs r rel).1,
+      ((rel.children.drop (rel.children.takeWhile isWsElem).length).take
+        ((rel.children.drop (rel.children.takeWhile isWsElem).length).length
+          - (rel.children.reverse.takeWhile isWsElem).length)),
+      rfl, by rw [hk']; exact getElem?_split _ _ _, ?_, rfl, ?_, ?_⟩
+    · rw [hk2, hk', replaceAt_split]; simp
+    · exact List.IsInfix.trans (List.take_prefix _ _).isInfix (List.drop_suffix _ _).isInfix
+    · intro ht
+      simp [ht.1, ht.2]
+
 end Deb822Verif.Props.C11Frames
